@@ -183,8 +183,14 @@ func runC20Once(t fataler, c c20Case, iter int) string {
 			nc.SetDeadline(time.Time{})
 		case "abandon-reader":
 			p.send(ref.Frame{Fin: false, Opcode: ref.OpText, Payload: []byte("first fragment of an abandoned message")})
+			rctx := base
+			if iter%2 == 1 {
+				// the message is begun under a context of the application's own type that lives on after the connection:
+				// whatever the library derives from it for this message must end with the connection
+				rctx = appContext{done: make(chan struct{})}
+			}
 			do(func() {
-				_, r, err := conn.Reader(base)
+				_, r, err := conn.Reader(rctx)
 				if err == nil {
 					r.Read(make([]byte, 5))
 				}
